@@ -5,4 +5,5 @@ cd "$(dirname "$0")"
 export CARGO_NET_OFFLINE=true
 mkdir -p target .work evidence replays
 ( cd engines/simx && CARGO_TARGET_DIR=../../target/simx cargo build --release --offline 2>&1 | tail -2 )
+( cd engines/seqx && CARGO_TARGET_DIR=../../target/seqx cargo build --release --offline 2>&1 | tail -2 )
 echo "setup done"
